@@ -35,7 +35,8 @@ META = {
     "every number spelling of <= 3 (4) fragments over ASCII and non-ASCII digits and number punctuation in 8 literal positions, and "
     "47 empty / minimal statements alone, after six kinds of (conditional) extends and inside 16 container bodies (thorough: two "
     "container levels), 35 block-like tags with their modifiers x 24 minimal bodies x 8 surroundings, and 22 whitespace-controlled tags (27 with line "
-    "statements) after 0-3 blank lines x 1-3 repetitions x 9 trailing faults x 3 leads x 3 separators (quick: 1-2 x 9 x 2 x 2), is loaded through Environment.from_string, Environment.parse and Environment.compile(raw=True) "
+    "statements) after 0-3 blank lines x 1-3 repetitions x 9 trailing faults x 3 leads x 3 separators (quick: 1-2 x 9 x 2 x 2), break / continue in 4 placements x 4 loop kinds inside <= 2 levels of 12 containers (sync and async), and 80 "
+    "constant expressions whose compile-time folding fails in 30 expression positions, is loaded through Environment.from_string, Environment.parse and Environment.compile(raw=True) "
     "+ Python compile() under nine configurations (default, ASP-style shared-prefix delimiters, ${ } variables, line "
     "statements + line comments, trim+lstrip, keep_trailing_newline, async, sandboxed, i18n+do+loopcontrols+debug).",
     "note": "Bounds: quick k=4 default / k=3 other configs, keyword alphabet <=2 (framed <=2), d<=1 on the 300 shortest seeds "
@@ -84,6 +85,10 @@ CONFIGS = [
      dict(extensions=["jinja2.ext.i18n", "jinja2.ext.do", "jinja2.ext.loopcontrols", "jinja2.ext.debug"]),
      None, ["do", "break", "continue", "debug", "trimmed", "notrimmed", "_"]),
 ]
+NCFG = len(CONFIGS)  # the nine configurations every family runs under
+# one more, used by the loop-control family only: loop controls in async code generation
+CONFIGS.append(("extasync", "Environment", dict(enable_async=True, extensions=["jinja2.ext.loopcontrols", "jinja2.ext.do"]), None,
+                ["break", "continue"]))
 CFG_INDEX = {c[0]: i for i, c in enumerate(CONFIGS)}
 
 
@@ -1016,10 +1021,102 @@ def shard_strip(arg, p):
         p.count("cases_strip_then_fault", p.evals)
 
 
+# --------------------------------------------------------------------------
+# (j) loop controls in every placement
+#
+# break / continue x {loop body, else branch, if nested in either} x loop kind
+# {plain, recursive, filtered, filtered recursive} inside <= 2 levels of
+# {body or else branch of a loop of each kind, macro, block, call block,
+# filter block}.  A recursive loop and a loop's else branch are separate
+# Python functions / not loop bodies: the places where a stray Python
+# `break` would be rejected by compile().
+
+LOOP_KINDS = [("{% for i in s %}", "plain"), ("{% for i in s recursive %}", "rec"), ("{% for i in s if i %}", "filt"),
+              ("{% for i in s if i recursive %}", "filtrec")]
+CTL_PLACEMENTS = ["L C {% endfor %}", "L x {% else %} C {% endfor %}", "L {% if c %} C {% endif %} {% endfor %}",
+                  "L x {% else %} {% if c %}a{% else %} C {% endif %} {% endfor %}"]
+CTL_CONTAINERS = (
+    [(o + " S {% endfor %}") for o, _ in LOOP_KINDS] + [(o + " x {% else %} S {% endfor %}") for o, _ in LOOP_KINDS]
+    + ["{% macro m() %} S {% endmacro %}", "{% block b %} S {% endblock %}", "{% call m() %} S {% endcall %}",
+       "{% filter upper %} S {% endfilter %}"])
+
+
+def loopctl_cases():
+    outers = ["S"] + CTL_CONTAINERS + [a.replace("S", b.replace("block b", "block b2")) for a in CTL_CONTAINERS for b in CTL_CONTAINERS]
+    out = []
+    for outer in outers:
+        for lopen, _ in LOOP_KINDS:
+            for place in CTL_PLACEMENTS:
+                for ctl in ("{% break %}", "{% continue %}"):
+                    out.append(outer.replace("S", place.replace("L", lopen.replace(" i ", " j ")).replace("C", ctl)))
+    return out
+
+
+@guarded
+def shard_loopctl(arg, p):
+    ci, part, nparts = arg
+    chk = Checker(p, ci, "K")
+    cases = loopctl_cases()
+    try:
+        for i in range(part, len(cases), nparts):
+            chk.check(translate_source(ci, cases[i]))
+        p.sample({"space": "K", "config": chk.cfg, "source": cases[part * 13 % len(cases)]}, cap=1)
+    finally:
+        p.count("cases_loop_controls", p.evals)
+
+
+# --------------------------------------------------------------------------
+# (k) constant expressions whose compile-time folding fails
+#
+# The optimizer evaluates constant subexpressions while loading; whatever
+# that evaluation raises must not escape.  Unhashable dict keys, arithmetic
+# and lookup errors, and filters / tests applied to unsuitable constants, in
+# every position where an expression is folded.
+
+FOLD_EXPRS = [
+    "{[1]: 2}", "{{}: 1}", "{(1, []): 2}", "{[]: []}", "{1: {[1]: 2}}", "[{[1]: 2}]", "({[1]: 2},)", "{[1]: 2, 'a': 1}",
+    "1 / 0", "1 // 0", "1 % 0", "0 ** -1", "2 ** -1", "'a' + 1", "1 + 'a'", "-'a'", "+[]", "'a' * -1", "[] < {}", "1 < 'a'",
+    "1 in 2", "'a' in 1", "[1][5]", "{}['k']", "'a'.b", "none.x", "{}.x.y", "(1).real", "[1, 2][::0]", "'%s %s' % 1", "'%d' % 'a'",
+    "true + none", "1 ~ none", "[]|first", "''|first", "[]|last", "[]|min", "[]|max", "1|join", "1|length", "none|length",
+    "'a'|round", "'a'|abs", "[1, 'a']|sum", "[1, 'a']|sort", "{}|dictsort(by='x')", "'x'|indent('a')", "1|batch(0)|list",
+    "[1]|slice(0)|list", "'a'|center('b')", "'a'|int(base=99)", "'a'|float|int", "1|list", "{}|items|first", "1|items",
+    "'a'|truncate(-1)", "'a'|wordwrap(0)", "1|string|list|first|int", "[1]|map('nosuch')|list", "[1]|map(attribute=1)|list",
+    "[1]|select('nosuch')|list", "1 is divisibleby(0)", "1 is sameas", "'a' is lt(1)", "[] is in(1)", "1 is nosuchtest",
+    "range(0)[1]", "range(1, 0, 0)", "dict(1)", "1e999", "1e999 - 1e999", "-1e999 // 1", "10 ** 10 ** 2", "'a' * 10 ** 3|length",
+    "[[]] * 3", "{'a': 1}.a", "{'a': 1}.items", "'a'.upper", "'%s'|format", "'%(a)s'|format(1)", "'{0}'.format()",
+]
+FOLD_POSITIONS = [
+    "{{ E }}", "{% set x = E %}", "{% if E %}y{% endif %}", "{{ (E)|length }}", "{% set x = (E)|length %}", "{{ (E) is mapping }}",
+    "{{ (E)[0] }}", "{{ (E).a }}", "{% for i in E %}{% endfor %}", "{{ 1 if E else 2 }}", "{{ f(E) }}", "{{ f(k=E) }}",
+    "{% with w = E %}{% endwith %}", "{% macro m(a=E) %}{% endmacro %}", "{{ x|default(E) }}", "{% include E %}",
+    "{{ (E) ~ 'a' }}", "{{ (E) in [1] }}", "{{ [E] }}", "{{ {'k': E} }}", "{{ {E: 1} }}", "{% set x %}{{ E }}{% endset %}",
+    "{% filter default(E) %}x{% endfilter %}", "{% autoescape E %}x{% endautoescape %}", "{{ x[E] }}", "{{ x[E:] }}",
+    "{{ not E }}", "{{ (E) and x }}", "{% for i in s if E %}{% endfor %}", "{% if x %}a{% elif E %}b{% endif %}",
+]
+
+
+def fold_cases():
+    return [pos.replace("E", e) for pos in FOLD_POSITIONS for e in FOLD_EXPRS]
+
+
+@guarded
+def shard_fold(arg, p):
+    ci, part, nparts = arg
+    chk = Checker(p, ci, "F")
+    cases = fold_cases()
+    try:
+        for i in range(part, len(cases), nparts):
+            chk.check(translate_source(ci, cases[i]))
+        p.sample({"space": "F", "config": chk.cfg, "source": cases[part * 17 % len(cases)]}, cap=1)
+    finally:
+        p.count("cases_constant_folding", p.evals)
+
+
 def shard_any(job):
     kind, arg = job
     return {"long": shard_long, "exprs": shard_exprs, "strings": shard_strings, "corpus": shard_corpus,
-            "shapes": shard_shapes, "numbers": shard_numbers, "empty": shard_empty, "strip": shard_strip}[kind](arg)
+            "shapes": shard_shapes, "numbers": shard_numbers, "empty": shard_empty, "strip": shard_strip, "loopctl": shard_loopctl,
+            "fold": shard_fold}[kind](arg)
 
 
 # --------------------------------------------------------------------------
@@ -1065,17 +1162,22 @@ def run(ctx: core.Ctx):
               "corpus_seeds": len(CORPUS)}
     # (e) long runs and (f) expression positions
     nparts = 4
-    jobs = [("long", (ci, part, nparts)) for ci in range(len(CONFIGS)) for part in range(nparts)]
-    jobs += [("exprs", (ci, part, 2)) for ci in range(len(CONFIGS)) for part in range(2)]
+    jobs = [("long", (ci, part, nparts)) for ci in range(NCFG) for part in range(nparts)]
+    jobs += [("exprs", (ci, part, 2)) for ci in range(NCFG) for part in range(2)]
+    # (j) loop controls (extension configuration, sync and async), (k) constant folding
+    jobs += [("loopctl", (ci, part, 4)) for ci in (CFG_INDEX["ext"], CFG_INDEX["extasync"]) for part in range(4)]
+    jobs += [("fold", (ci, part, 2)) for ci in range(NCFG) for part in range(2)]
+    bounds["loop_control_cases_per_config"] = len(loopctl_cases())
+    bounds["constant_folding_cases_per_config"] = len(fold_cases())
     # (i) left-stripping tags followed by a fault
-    jobs += [("strip", (ci, part, 3, not q)) for ci in range(len(CONFIGS)) for part in range(3)]
+    jobs += [("strip", (ci, part, 3, not q)) for ci in range(NCFG) for part in range(3)]
     bounds["strip_then_fault_cases_per_config"] = len(strip_cases(0, not q))
     # (g) number spellings, (h) empty bodies
-    kn = {ci: ((3 if ci == 0 else 2) if q else (4 if ci == 0 else 3)) for ci in range(len(CONFIGS))}
-    jobs += [("numbers", (ci, kn[ci], first)) for ci in range(len(CONFIGS)) for first in range(len(NUM_ALPHABET))]
+    kn = {ci: ((3 if ci == 0 else 2) if q else (4 if ci == 0 else 3)) for ci in range(NCFG)}
+    jobs += [("numbers", (ci, kn[ci], first)) for ci in range(NCFG) for first in range(len(NUM_ALPHABET))]
     bounds["k_number_spellings"] = {CONFIGS[ci][0]: kn[ci] for ci in kn}
     bounds["number_alphabet"] = len(NUM_ALPHABET)
-    for ci in range(len(CONFIGS)):
+    for ci in range(NCFG):
         two = 2 if not q else (1 if ci == 0 else 0)
         ncases = len(empty_cases(two))
         parts = max(1, ncases // 3000)
@@ -1087,7 +1189,7 @@ def run(ctx: core.Ctx):
 
     shards = []
     tuples = 0
-    for ci in range(len(CONFIGS)):
+    for ci in range(NCFG):
         k = k_def if ci == 0 else k_oth
         if not q and CONFIGS[ci][0] in ("async", "sandbox"):
             k = k_oth - 1  # same lexer and parser as the default configuration; only code generation differs
@@ -1113,11 +1215,11 @@ def run(ctx: core.Ctx):
     # (c) mutations
     n = len(CORPUS)
     cshards = []
-    d1 = {ci: (n if ci == 0 else (40 if q else 300)) for ci in range(len(CONFIGS))}
+    d1 = {ci: (n if ci == 0 else (40 if q else 300)) for ci in range(NCFG)}
     if q:
         d1[0] = min(n, 300)
-    d2 = {ci: (0 if q else (60 if ci == 0 else 15)) for ci in range(len(CONFIGS))}
-    for ci in range(len(CONFIGS)):
+    d2 = {ci: (0 if q else (60 if ci == 0 else 15)) for ci in range(NCFG)}
+    for ci in range(NCFG):
         ids = list(range(d2[ci], d1[ci]))  # the first d2 seeds are covered at d = 2 (which includes d <= 1)
         for i in range(0, len(ids), 6):
             cshards.append((ci, ids[i:i + 6], 1))
@@ -1131,7 +1233,7 @@ def run(ctx: core.Ctx):
     # (d) shapes
     step = 1500
     sshards = []
-    for ci in range(len(CONFIGS)):
+    for ci in range(NCFG):
         full = 2 if not q else (1 if ci == 0 else 0)
         total = len(all_shapes(full))
         sshards += [(ci, full, lo, min(total, lo + step)) for lo in range(0, total, step)]
